@@ -242,6 +242,11 @@ func (p *PacketOut) MarshalBinary() (data []byte, err error) {
 	n := 0
 
 	p.Header.Length = p.Len()
+	// actions_len covers the actions as they are now: an action may have grown since AddAction.
+	p.ActionsLen = p.Header.Length - 24
+	if p.Data != nil {
+		p.ActionsLen -= p.Data.Len()
+	}
 	b, err = p.Header.MarshalBinary()
 	copy(data[n:], b)
 	n += len(b)
